@@ -192,3 +192,60 @@ def _(run):
     outs = ex.run(st, pre)
     want = z3.And(me != declared, z3.Or(*[z3.And(toks[SV(d)], derived(me, declared, SV(d))) for d in ('extension', 'restriction')]))
     run.post(ex, outs, pre, {'blocked-iff-a-listed-derivation-step-applies': lambda kind, v, s: (v.t == want) if kind == 'return' else z3.BoolVal(False)})
+
+
+# ------------------------------------------------------------------ effective block / final: an explicit (even empty) attribute overrides the schema default
+def mk_effective(tid, file, qual, attr, default_field, has_ref):
+    t = Target(tid, ['C07'], file, qual,
+               note=f'the effective value is the component\'s own {attr[1:]} attribute whenever it is present - also when it is the empty string - and the schema '
+                    f'{default_field} only when it is absent' + ('; a reference takes the value of the referred declaration' if has_ref else ''))
+
+    @t.symbolic
+    def _(run):
+        ex = run.exec(); st = new_state()
+        own = VOpt(z3.Bool('own_none'), VStr(z3.String('own'))); dflt = z3.String('schema_default'); refv = z3.String('ref_value')
+        st.objf['schema'] = {default_field: VStr(dflt)}
+        st.objf['refobj'] = {attr[1:]: VStr(refv)}
+        st.objf['self'] = {attr: own, 'schema': VObj('schema'), 'ref': VOpt(z3.Bool('ref_none'), VObj('refobj'))}
+        st.env['self'] = VObj('self')
+        run.inputs.update(own=('opt', z3.Bool('own_none'), z3.String('own')), schema_default=dflt, is_ref=z3.Not(z3.Bool('ref_none')))
+        pre = z3.BoolVal(True) if has_ref else z3.Bool('ref_none')
+        outs = ex.run(st, pre)
+        want = z3.If(z3.And(z3.Not(z3.Bool('ref_none')), z3.BoolVal(has_ref)), refv, z3.If(z3.Bool('own_none'), dflt, z3.String('own')))
+        def post(kind, v, s):
+            v = lift(v)
+            if kind != 'return': return z3.BoolVal(False)
+            if isinstance(v, VStr): return v.t == want
+            if isinstance(v, VOpt) and isinstance(v.val, VStr): return z3.And(z3.Not(v.none), v.val.t == want)
+            return z3.BoolVal(False)
+        run.post(ex, outs, pre, {'own-attribute-overrides-the-schema-default': post})
+
+    @t.concrete
+    def _(inp):
+        import xmlschema
+        XS = 'xmlns:xs="http://www.w3.org/2001/XMLSchema"'
+        if inp.get('is_ref'): return dict(ok=True, observed='reference case not replayed', required=None)
+        own, dflt = inp['own'], inp['schema_default']
+        words = lambda x: ' '.join(w for w in ('extension', 'restriction') if w in (x or ''))
+        # abstract strings of a solver model are mapped onto legal attribute values, keeping emptiness and (in)equality
+        own_w = None if own is None else (words(own) or ('' if own == '' else 'extension'))
+        d_w = words(dflt) or ('' if dflt == '' else ('restriction' if dflt != own else own_w or 'restriction'))
+        kind = 'elem' if 'elements' in file else 'type'
+        dattr = 'blockDefault' if 'block' in attr else 'finalDefault'
+        a = '' if own_w is None else f' {attr[1:]}="{own_w}"'
+        body = f'<xs:element name="e" type="xs:string"{a}/>' if kind == 'elem' else f'<xs:complexType name="T"{a}/><xs:element name="e" type="T"/>'
+        s = xmlschema.XMLSchema10(f'<xs:schema {XS} {dattr}="{d_w}">{body}</xs:schema>')
+        comp = s.elements['e'] if kind == 'elem' else s.types['T']
+        got = getattr(comp, attr[1:]); want = d_w if own_w is None else own_w
+        return dict(ok=set(got.split()) == set(want.split()), observed=got, required=want)
+
+    @t.scope
+    def _(tier, rng):
+        for own in (None, '', 'extension', 'restriction', 'extension restriction'):
+            for d in ('', 'extension', 'restriction', 'extension restriction'):
+                yield dict(own=own, schema_default=d, is_ref=False)
+
+
+mk_effective('elements.XsdElement.block', F, 'XsdElement.block', '_block', 'block_default', True)
+mk_effective('elements.XsdElement.final', F, 'XsdElement.final', '_final', 'final_default', True)
+mk_effective('complex_types.XsdComplexType.block', 'xmlschema/validators/complex_types.py', 'XsdComplexType.block', '_block', 'block_default', False)
